@@ -11,6 +11,8 @@ use std::rc::Rc;
 pub struct XOracle {
     pub ctx: Ctx,
     pub mode: Mode,
+    /// picks inside sections of <= 3 tasks cost nothing (they are always fully permuted)
+    pub free_small: bool,
     sizes: RefCell<Vec<usize>>,
     pub max_section: RefCell<usize>,
     pub sections: RefCell<u64>,
@@ -21,6 +23,7 @@ impl XOracle {
         XOracle {
             ctx,
             mode,
+            free_small: true,
             sizes: RefCell::new(vec![]),
             max_section: RefCell::new(0),
             sections: RefCell::new(0),
@@ -36,7 +39,7 @@ impl Oracle for XOracle {
         let cost = match site {
             // sections with <= 3 tasks are always fully permuted
             Site::Pick => {
-                if self.sizes.borrow().last().copied().unwrap_or(0) <= 3 {
+                if self.free_small && self.sizes.borrow().last().copied().unwrap_or(0) <= 3 {
                     0
                 } else {
                     1
@@ -61,7 +64,14 @@ impl Oracle for XOracle {
 
 /// Mode A: run `f` with every parallel section's completion order decided by `ctx`.
 pub fn run_atomic<R>(ctx: &Ctx, f: impl FnOnce() -> R) -> (R, usize) {
-    let o = Rc::new(XOracle::new(ctx.clone(), Mode::Atomic));
+    run_atomic_opt(ctx, true, f)
+}
+
+/// Mode A with every pick costing one deviation (for inputs with nested sections).
+pub fn run_atomic_opt<R>(ctx: &Ctx, free_small: bool, f: impl FnOnce() -> R) -> (R, usize) {
+    let mut x = XOracle::new(ctx.clone(), Mode::Atomic);
+    x.free_small = free_small;
+    let o = Rc::new(x);
     let r = rayon::sched::with_oracle(o.clone(), f);
     let m = *o.max_section.borrow();
     (r, m)
